@@ -229,6 +229,31 @@ ADD_TEXT = {
 }
 
 
+ADD_TEXT_R7 = {
+    "C01": " One case in eight takes its listing from real objdump output of generated code bytes (blobs in three modes, ELF objects incl. linked ones with load addresses): the rule describes a window of the decoded stream, windows are steered to fields the synthetic vocabulary lacks ({%k1}{z}, *%rax, %fs:0x28, rex.W, .byte), one line-level mutation follows, and the fields of every record are counted against the operands of the objdump line (commas outside parentheses).",
+    "C02": " Bounds also have two and three digits (7..101, ranges up to 90 wide) and lie around 1000 (999..1002 with runs of hi-1 / hi / hi+1; whole names, no alternation in the repeated node); kinds include an $or with a $not alternative whose argument spans several instructions; relations include times on the invocation of a list-bodied macro vs the body written out with that times (F32) and a later register-family occurrence with times (F31); the sibling spelling is also written with an empty item value (F35).",
+    "C03": " Levels leading-optionals (alternatives / groups that begin with children that may match nothing) and mapping-form (the children of a group, of a nested group or of the whole pattern written as a YAML mapping); $deref-field operators are also written as the mapping itself (F36).",
+    "C04": " Repeated $not also with wide windows (max 31..1000 over a short run); position adjacent-nots (two guards whose arguments are alike up to a point: no operands / one operand, one / two operands, two / three alternatives).",
+    "C05": " The later occurrence inside an operator inside a $deref field may be a register-family capture; one rule in four is compiled twice on the same Yaml2Regex object and must give the same regex.",
+    "C06": " The instruction around the $deref varies (mov, lea, add, cmp, scalar SSE mnemonics ending in ss with xmm registers).",
+    "C07": " Sub-part: for each of 17 plausible chunk sizes a long listing whose record before the cut ends in hex digits; matches at the cut must be aligned and report their own address.",
+    "C08": " Objects may be linked files (ET_EXEC / ET_DYN, sections at load addresses, 8- and 16-digit address columns) or carry relocations, shown with objdump -r and -w -r (records on their own lines / appended to instruction lines); the byte table has *ss mnemonics with memory operands and MPX (bad) forms.",
+    "C10": " The number of operand fields of a record must equal the number of operands on the line as objdump printed it (operand text split at commas outside parentheses; lines that start with a prefix word are left to F15). Objects as in C08 (linked, relocations, -r / -w -r layouts).",
+    "C11": " Fixed families: a 7-child $and_any_order with a doubled / more specific child on windows that fit child by child but not one-to-one; runs of 1000-1003 instructions against bounds of 999 / 1000 followed by more pattern.",
+    "C12": " The greedy-run zone rule runs at all 17 chunk-size candidates in the quick tier.",
+    "C13": " Kinds key-substring / key-whole (a string macro inside / as the name of an item that has a body, i.e. in a mapping key) and chain (a string macro whose body refers to a later one, F38); extra macro files are named so that the given order is not the alphabetical one in half of the cases.",
+    "C14": " The pool has operations that load a config without completing a match (compile-only through Yaml2Regex, failures after the config was read) and rules whose sections are all absent; histories ask earlier questions again and bracket such a disturber with the same operation.",
+    "C15": " Section names may contain upper-case letters; objects may be linked files or carry relocations.",
+    "C16": " File names made of hex digits only in the title line; indentation of 16-56 blanks.",
+    "C17": " 28 further fault kinds on base rules whose verdict depends on the faulted entry: wrongly typed times in three spellings (F34), bad times on a macro use (F32), $deref fields without a value (F33), empty groups and multi-argument $not in operand lists and $deref fields.",
+    "C18": " The l spellings calll / jmpl that objdump prints in 16-bit code are generated (F37).",
+    "C19": " Sub-check: the macro library rewritten between two compilations of the same rule text under the same path - the second compilation must report the lost definition (MasterOfPuppets and Yaml2Regex).",
+    "C20": " Every option is written short / long / long with '=' / as an unambiguous abbreviation, 0-2 of the remaining options (--debug, --info, logging switches, --dissasemble-program=objdump) are added as extras that must not change what is reported, the entry point is python -m jasm.main or the installed console script; the listing or the rule may be fed through /dev/stdin; paths may run through a symlinked directory followed by '..' with decoys at the lexically collapsed location.",
+}
+for _k, _v in ADD_TEXT_R7.items():
+    ADD_TEXT[_k] = ADD_TEXT.get(_k, "") + _v
+
+
 def main():
     checks = []
     for pid in ALL:
